@@ -28,6 +28,7 @@ fn build_tree(root: &Path) -> Tree {
     let files = [
         "secret", "base/a", "base/a.gz", "base/b", "base/sub/a", "base/sub/c.gz", "base/...", "base/..a", "base/a..",
         "base/.gz", "base/sub/.gz", "base/....gz", "base/b.gz/x", "base/sub/...", "base/sub/a...gz", "base/a...gz",
+        "base/a.gz.gz", "base/sub/c.gz.gz",
     ];
     for f in files {
         std::fs::write(root.join(f), f.as_bytes()).unwrap();
